@@ -23,7 +23,7 @@ def genFixes : Fixes :=
     checkBeforePurge := Gen.C02Recv.checkBeforePurge }
 
 structure St where
-  cfg : Cfg := { prefixes := Gen.C01Ssdp.ssdpPrefixes, trk := C03.genCfg }
+  cfg : Cfg := { prefixes := Gen.C01Ssdp.ssdpPrefixes, trk := { C03.genCfg with tMax := C02.dtMax } }
   desync : Bool := false   -- the model's tracker state is no longer the implementation's (unmodelled value / raise earlier in the case)
   tr : Tracker := {}
   -- pending model outcome of the last `dg`
@@ -85,7 +85,7 @@ def stepOp (st : St) (toks : List String) : St :=
       let devs ← parseList (parseKV tokB) (← f "devs")
       let svcs ← parseList tokB (← f "svcs")
       let always ← f "always"
-      pure { prefixes := Gen.C01Ssdp.ssdpPrefixes, trk := C03.genCfg, targetHost := (tokB tgt).getD [], rootUdn := (tokB root).getD [],
+      pure { prefixes := Gen.C01Ssdp.ssdpPrefixes, trk := { C03.genCfg with tMax := C02.dtMax }, targetHost := (tokB tgt).getD [], rootUdn := (tokB root).getD [],
              devices := devs, services := svcs, alwaysRoot := always == "1" }
     match r with
     | some c => { st with cfg := c }
